@@ -103,6 +103,7 @@ type State struct {
 	model    map[string]uint64
 	fallbacks []*Solver
 	firstRange bool
+	jsonVals map[*Object]Value
 	choices  []int
 	mergeFns []string
 	replFns  map[string]*Closure
